@@ -516,8 +516,14 @@ def check_reversible_refusals(acc, report=True):
     ag = MotifChange("A", "G", forward_only=True)
     ga = MotifChange("G", "A", forward_only=True)
     ct = MotifChange("C", "T", forward_only=True)
+    gc_ = MotifChange("G", "C", forward_only=True)
+    ca = MotifChange("C", "A", forward_only=True)
+    ta = MotifChange("T", "A", forward_only=True)
     for label, preds in (("one directed predicate", [ag]), ("a directed predicate and its mirror image", [ag, ga]),
-                         ("two mirrored pairs", [ag, ga, ct, MotifChange("T", "C", forward_only=True)])):
+                         ("two mirrored pairs", [ag, ga, ct, MotifChange("T", "C", forward_only=True)]),
+                         # every state is left once and entered once: row sums equal column sums, yet nothing is mirrored
+                         ("one predicate that is a one-way cycle over three states", [ag | gc_ | ca]),
+                         ("one predicate that is a one-way cycle over four states", [ag | gc_ | ct | ta])):
         for cls_name in ("TimeReversibleNucleotide",):
             case = {"model": "reversible-refusal", "class": cls_name, "predicates": label}
             acc.case(case)
